@@ -569,6 +569,10 @@ impl Database {
                     if (*provided_val as u64) > auto_increment_max {
                         auto_increment_max = *provided_val as u64;
                     }
+                    // later rows of this statement must generate above the explicit value
+                    if (*provided_val as u64) > auto_increment_current {
+                        auto_increment_current = *provided_val as u64;
+                    }
                 }
             }
 
